@@ -495,11 +495,37 @@ func c14Run(c *core.Ctx) {
 	c.Rule(fmt.Sprintf("all canonical histories (names introduced in index order, first constant used is constant 0; only histories that are valid in-order Go: no redeclaration, no use before declaration) "+
 		"of exactly the stated depth over the alphabet {var int, var string, var float64, assign, +=, p := &v, p = &v, *p = c, func reading a global, type+var of struct type, "+
 		"bulk = %d int + %d string variables declared one evaluation each} in the phases [%s]; every history on a fresh interpreter; after every step every declared name, *p, g(), t.A, every bulk variable and every relation p == &v is read back and compared with the model. "+
-		"non-trivial = distinct histories in which an address of an int variable is taken or a bulk declaration occurs (the paths of prepareEnv / IntBindMax)", c14BulkInts, c14BulkStrs, strings.Join(labels, "; ")))
+		"non-trivial = distinct histories in which an address of an int variable is taken or a bulk declaration occurs (the paths of prepareEnv / IntBindMax). "+
+		"Second family, escape scenarios (kind of the global: %d kinds = the 16 scalar kinds kept in the slot array, named scalar types, string, struct field, array element) x "+
+		"(site where the address is taken: %d sites = top level, function body under 0..4 nested blocks with locals, nested loops, closures, a closure stored by an earlier evaluation, top-level blocks, implicit address of a pointer-receiver method call) x "+
+		"(fill: %d ways of declaring variables one evaluation at a time before/after the address is taken: 1 or 8 per statement past the capacity of the slot array, two-slot variables of both parities, address taken when the array is exactly full / has one / two free slots or was already reallocated once, the next declaration being the very next evaluation or not, boxed variables): "+
+		"quick = every kind x site with one capacity-crossing fill + every fill for 6 kinds, thorough = full product; after the address is taken and after every later declaration a value is stored through the pointer / the variable and read back through the other; every scenario is non-trivial",
+		c14BulkInts, c14BulkStrs, strings.Join(labels, "; "), len(c14Kinds()), len(c14Sites()), len(c14Fills())))
 	c.Assume("the reference model (Go map name -> cell with pointer aliasing) is validated against compiled Go on all histories up to depth 3 (with a 3+2 variable bulk) rendered as one function body",
-		"histories shorter than the depth bound are prefixes of enumerated histories and are checked step by step inside them")
+		"histories shorter than the depth bound are prefixes of enumerated histories and are checked step by step inside them",
+		"the expectations of the escape scenarios are validated against compiled Go with the fills scaled down to a capacity of 9 slots (the capacity has no meaning for compiled Go)")
 	n := 0
 	c.Set("phases", labels)
+	// second family (c14_escape.go), first: it is cheap and must never be cut by the deadline
+	esc := c14EscCases(c.Thorough())
+	if c.Shard == 0 {
+		c.Set("escape_scenarios", len(esc))
+	}
+	for i, cas := range esc {
+		if !c.Mine(i) || c.Expired() {
+			continue
+		}
+		st := c14EscRun(c, cas)
+		c.States(1)
+		c.Transitions(st.Steps)
+		c.Traces(1)
+		c.Count("escape_scenarios_executed", 1)
+		c.Count("escape_read_backs", st.Checks)
+		c.Nontrivial("escape " + cas.String())
+		if c.WantSample() && i%97 == 0 {
+			c.Sample(map[string]interface{}{"escape_scenario": cas.String(), "evaluations": st.Steps, "read_backs": st.Checks})
+		}
+	}
 	for pi, ph := range phases {
 		count := 0
 		c14Histories(ph.Depth, ph.MaxBulk, ph.Alphabet, func(hist []c14Op) {
@@ -542,6 +568,9 @@ func c14Run(c *core.Ctx) {
 }
 
 func c14Replay(c *core.Ctx, raw json.RawMessage) {
+	if c14EscReplay(c, raw) {
+		return
+	}
 	var cas c14Case
 	if err := json.Unmarshal(raw, &cas); err != nil {
 		panic(err)
@@ -653,5 +682,5 @@ func c14Prepare(c *core.Ctx) error {
 		}
 	}
 	c.Set("model_validated_against_compiled_go_histories", len(progs))
-	return nil
+	return c14EscapePrepare(c)
 }
